@@ -2376,6 +2376,99 @@ def _b_bool(it, args, kw):
     return it.truth(args[0])
 
 
+def _b_callable(it, args, kw):
+    (v,) = args
+    if isinstance(v, (FuncVal, BoundMethod, Builtin, Partial, ClassVal)):
+        return True
+    if isinstance(v, SObj):
+        return v.cls.find('__call__')[1] is not None
+    if isinstance(v, Opaque):
+        raise Unsupported('callable() of an opaque value')
+    return False
+
+
+def _plain(xs):
+    return all(isinstance(x, (int, str, bytes, bool, float, type(None))) or (isinstance(x, tuple) and _plain(x)) for x in xs)
+
+
+def _b_zip(it, args, kw):
+    return list(zip(*[list(it.iterate(a)) for a in args]))
+
+
+def _b_reversed(it, args, kw):
+    return list(reversed(list(it.iterate(args[0]))))
+
+
+def _b_sorted(it, args, kw):
+    xs = list(it.iterate(args[0]))
+    if kw or not _plain(xs):
+        raise Unsupported('sorted() of symbolic values or with a key')
+    try:
+        return sorted(xs)
+    except Exception as e:
+        it.reraise(e)
+
+
+def _b_sum(it, args, kw):
+    acc = args[1] if len(args) > 1 else 0
+    for x in it.iterate(args[0]):
+        acc = it.binop(ast.Add, acc, x)
+    return acc
+
+
+def _b_map(it, args, kw):
+    f = args[0]
+    return [it.call(f, list(xs), {}) for xs in zip(*[list(it.iterate(a)) for a in args[1:]])]
+
+
+def _b_filter(it, args, kw):
+    f, xs = args
+    return [x for x in it.iterate(xs) if it.truth(x if f is None else it.call(f, [x], {}))]
+
+
+def _b_frozenset(it, args, kw):
+    xs = list(it.iterate(args[0])) if args else []
+    if not _plain(xs):
+        raise Unsupported('frozenset of symbolic values')
+    return frozenset(xs)
+
+
+def _b_issubclass(it, args, kw):
+    c, b = args
+    bs = b if isinstance(b, tuple) else (b,)
+    if isinstance(c, ClassVal) and all(isinstance(x, ClassVal) for x in bs):
+        return any(c.issub(x) for x in bs)
+    raise Unsupported('issubclass on non-class values')
+
+
+def _b_repr(it, args, kw):
+    (v,) = args
+    if _plain([v]):
+        return repr(v)
+    return Opaque('str')
+
+
+def _b_chr(it, args, kw):
+    (v,) = args
+    if isinstance(v, int):
+        try:
+            return chr(v)
+        except Exception as e:
+            it.reraise(e)
+    raise Unsupported('chr of a symbolic value')
+
+
+def _b_hexlike(f):
+    def impl(it, args, kw):
+        (v,) = args
+        if isinstance(v, int):
+            return f(v)
+        if is_sym(v) and v.sort in ('int', 'bool'):
+            return Opaque('str')
+        it.type_error('an integer is required')
+    return impl
+
+
 def _b_c_uint32(it, args, kw):
     (v,) = args
     if is_sym(v):
@@ -2478,7 +2571,10 @@ for _n, _f in [('len', _b_len), ('isinstance', _b_isinstance), ('type', _b_type)
                ('range', _b_range), ('enumerate', _b_enumerate), ('print', _b_print), ('ord', _b_ord),
                ('set', _b_set), ('list', _b_list), ('tuple', _b_tuple), ('dict', _b_dict), ('bytes', _b_bytes),
                ('bytearray', _b_bytearray), ('min', _b_minmax(min)), ('max', _b_minmax(max)), ('abs', _b_abs),
-               ('divmod', _b_divmod), ('bool', _b_bool), ('iter', _b_iter), ('next', _b_next)]:
+               ('divmod', _b_divmod), ('bool', _b_bool), ('iter', _b_iter), ('next', _b_next), ('callable', _b_callable),
+               ('zip', _b_zip), ('reversed', _b_reversed), ('sorted', _b_sorted), ('sum', _b_sum), ('map', _b_map), ('filter', _b_filter),
+               ('frozenset', _b_frozenset), ('issubclass', _b_issubclass), ('repr', _b_repr), ('chr', _b_chr),
+               ('hex', _b_hexlike(hex)), ('bin', _b_hexlike(bin)), ('oct', _b_hexlike(oct))]:
     _reg(_n, _f)
 BUILTINS['object'] = EXC['object']
 BUILTINS['True'] = True
